@@ -457,6 +457,36 @@ func Forms() []*Form {
 		p.e("route.responses.named", "#/responses/baseResp", at(b, "responses", "200", "$ref")...)
 		p.e("route.responses.named", "string", "responses", fmt.Sprintf("err%d", k), "schema", "properties", "message", "type")
 	})
+	// a response and a model published under one swagger name: an untagged or `response:` name
+	// in a Responses: block is the response, `body:` the model
+	add("route.responses.named.model-namesake", func(p *Prog) {
+		const form = "route.responses.named.model-namesake"
+		k := p.next()
+		path, id := fmt.Sprintf("/r%d", k), fmt.Sprintf("op%d", k)
+		name := fmt.Sprintf("apiFault%d", k)
+		p.decl(fmt.Sprintf("// Fault%d is the payload of a failure.\n//\n// swagger:model %s\ntype Fault%d struct {\n\t// required: true\n\tCode int32 `json:\"code\"`\n\tMessage string `json:\"message\"`\n}\n", k, name, k))
+		p.decl(fmt.Sprintf("// FaultResponse%d is the failure envelope.\n//\n// swagger:response %s\ntype FaultResponse%d struct {\n\t// Correlation id\n\tXRequestID string `json:\"X-Request-Id\"`\n\t// in: body\n\tBody Fault%d `json:\"body\"`\n}\n", k, name, k, k))
+		p.route("GET", path, "", id, false, "Responses:", "  default: "+name, "  200: baseResp", "  422: response:"+name, "  409: body:"+name)
+		b := op(path, "GET")
+		p.e(form, "#/responses/"+name, at(b, "responses", "default", "$ref")...)
+		p.e(form, "#/responses/"+name, at(b, "responses", "422", "$ref")...)
+		p.e(form, "#/definitions/"+name, at(b, "responses", "409", "schema", "$ref")...)
+		p.e(form, "string", "responses", name, "headers", "X-Request-Id", "type")
+		p.e(form, "#/definitions/"+name, "responses", name, "schema", "$ref")
+		p.e(form, Exists{}, "definitions", name)
+	})
+	add("route.responses.tagged", func(p *Prog) {
+		const form = "route.responses.tagged"
+		k := p.next()
+		path, id := fmt.Sprintf("/r%d", k), fmt.Sprintf("op%d", k)
+		m := p.model()
+		p.decl(fmt.Sprintf("// Tagged%d is an answer.\n//\n// swagger:response tagged%d\ntype Tagged%d struct {\n\t// in: body\n\tBody %s\n}\n", k, k, k, m))
+		p.route("GET", path, "", id, false, "Responses:", fmt.Sprintf("  200: response:tagged%d", k), fmt.Sprintf("  default: response:tagged%d", k), "  404: "+m)
+		b := op(path, "GET")
+		p.e(form, fmt.Sprintf("#/responses/tagged%d", k), at(b, "responses", "200", "$ref")...)
+		p.e(form, fmt.Sprintf("#/responses/tagged%d", k), at(b, "responses", "default", "$ref")...)
+		p.e(form, "#/definitions/"+m, at(b, "responses", "404", "schema", "$ref")...)
+	})
 	add("route.responses.body", func(p *Prog) {
 		k := p.next()
 		path, id := fmt.Sprintf("/r%d", k), fmt.Sprintf("op%d", k)
